@@ -74,6 +74,11 @@ ASSUMPTIONS = [
     "which the counter is *found* at period / 0 (one tick after it arrived there, and only if the input still points "
     "the same way); the stricter reading 'in the tick in which the counter arrives' is only counted "
     "(counter debounce_strict_reading_differs)",
+    "context reset (cells `ctx_reset`): the SequentialContext the generator is made from has its own std.Reset "
+    "(active-high / active-low, synchronous / asynchronous); the stimulus holds it inactive according to its polarity "
+    "and pulses it; while it is active the generator is in its reset state (default_state, no pulses) and the "
+    "enable register of the enable()/disable() process returns to its initial value; asynchronous resets are only "
+    "combined with drive none/signal, where they are indistinguishable from synchronous ones at the clock samples",
     "enable()/disable() are called from a separate clocked process (effective one clock later); alternatively the "
     "reset signal returned by get_reset_signal() is driven from an input as upstream test_toggle_signal_01.py does",
 ]
@@ -133,6 +138,7 @@ def _counter_cells(tier):
     return cells
 
 
+_CTX_RESETS = ["high", "low", "high_async", "low_async"]
 _DRIVES = [("none", False), ("method", False), ("method", True), ("signal", True), ("none", True), ("signal", False)]
 
 
@@ -153,6 +159,15 @@ def _clkdiv_cells(tier):
                               "tick_at_start": False, "require_enable": req, "drive": drive, "callbacks": True})
     cells.append({"comp": "clkdiv", "p0": {"kind": "rt"}, "port_width": 3, "default_state": False,
                   "tick_at_start": True, "require_enable": False, "drive": "none", "callbacks": False})
+    # the context the divider is made from has its own reset: active-high / active-low, synchronous / asynchronous
+    for d in (2, 5):
+        for default in (False, True):
+            for drive, req in (("none", False), ("method", False), ("signal", True)):
+                for cr in _CTX_RESETS:
+                    if not (cr.endswith("async") and drive == "method"):
+                        cells.append({"comp": "clkdiv", "p0": {"kind": "const", "n": d}, "default_state": default,
+                                      "tick_at_start": d == 5 and default, "require_enable": req, "drive": drive,
+                                      "callbacks": True, "ctx_reset": cr})
     for f, dur in [(100, {"unit": "ns", "val": 30}), (125, {"unit": "ns", "val": 40}), (125, {"unit": "ns", "val": 30}),
                    (3, {"unit": "us", "val": 1})]:
         cells.append({"comp": "clkdiv", "p0": {"kind": "dur", "dur": dur}, "freq_mhz": f, "default_state": False,
@@ -174,6 +189,14 @@ def _toggle_cells(tier):
                           "p1": None if b is None else {"kind": "const", "n": b}, "first_state": fs,
                           "default_state": ds, "require_enable": req, "drive": drive, "callbacks": i % 2 == 0})
         i += 1
+    for (a, b), fs, ds in [((1, 1), True, False), ((3, 2), False, True), ((4, None), True, True)]:
+        for drive, req in (("none", False), ("method", False), ("signal", True)):
+            for cr in _CTX_RESETS:
+                if not (cr.endswith("async") and drive == "method"):
+                    cells.append({"comp": "toggle", "p0": {"kind": "const", "n": a},
+                                  "p1": None if b is None else {"kind": "const", "n": b}, "first_state": fs,
+                                  "default_state": ds, "require_enable": req, "drive": drive, "callbacks": True,
+                                  "ctx_reset": cr})
     for pw in (2, 3):
         for fs in (False, True):
             for drive, req in (("signal", True), ("method", False)):
@@ -291,10 +314,11 @@ def strategy(shard):
         return st.builds(lambda c, r, lim: {"kind": "counter", "cfg": c, "rst": r, "lim": lim % (1 << c.get("port_width", 3))},
                          cell, _bits(), st.integers(0, 15))
     if fam in ("clkdiv", "toggle"):
-        base = st.builds(lambda c, en, d0, d1: {"kind": fam, "cfg": c, "en": en,
-                                                "d0": d0 % (1 << c.get("port_width", 3)),
-                                                "d1": d1 % (1 << c.get("port_width", 3))},
-                         cell, _bits(), st.integers(0, 15), st.integers(0, 15))
+        crs = st.lists(st.sampled_from([0, 0, 0, 0, 0, 1]), min_size=5, max_size=40)
+        base = st.builds(lambda c, en, d0, d1, cr: {"kind": fam, "cfg": c, "en": en,
+                                                    "d0": d0 % (1 << c.get("port_width", 3)),
+                                                    "d1": d1 % (1 << c.get("port_width", 3)), "cr": cr},
+                         cell, _bits(), st.integers(0, 15), st.integers(0, 15), crs)
         return st.one_of(base, base, vary) if vary is not None else base
     if fam == "debounce":
         return st.builds(lambda c, s: {"kind": "debounce", "cfg": c, "inp": s}, cell, _bits(80))
@@ -586,7 +610,10 @@ def _check_gen(case, out):
         d1, st1 = (d0, st0) if cfg.get("p1") is None else _period(cfg["p1"], case["d1"], cfg)
     else:
         d1, st1 = 0, "ok"
-    key, b = _build(fam, cfg, {"clk": 0, "en": 0, "dis": 1 if cfg.get("require_enable") else 0, "d0": 1, "d1": 1})
+    ctx_reset = cfg.get("ctx_reset")
+    low = bool(ctx_reset) and ctx_reset.startswith("low")
+    key, b = _build(fam, cfg, {"clk": 0, "en": 0, "dis": 1 if cfg.get("require_enable") else 0, "d0": 1, "d1": 1,
+                               "rst": 1 if low else 0})  # the context reset starts inactive according to its polarity
     if "reject_expected" in (st0, st1):
         out.labels.append(f"{fam}:duration_not_dividing:{b.status}")
         out.status = "unspecified" if b.status == "ok" else b.status
@@ -613,6 +640,9 @@ def _check_gen(case, out):
             "enable_ctl": drive != "none"}
     runs = 0
     edge_inside = False
+    ctx_resets = 0
+    if ctx_reset:
+        base = dict(base, ctx_reset=ctx_reset)
     try:
         for seq in _en_sequences(case, cfg):
             runs += 1
@@ -624,8 +654,16 @@ def _check_gen(case, out):
             prev_state = default
             for t, en in builtins.enumerate(seq):
                 dis = 1 - en
-                reset = rl.at_edge(en, dis)
-                sim.clock("clk", en=en, dis=dis, d0=case["d0"], d1=case["d1"])
+                # activity of the context's own reset in this clock (stimulus respects the configured polarity)
+                if not ctx_reset:
+                    ca = 0
+                elif case.get("cr", "std") == "std":
+                    ca = int(t in (0, 5))
+                else:
+                    ca = case["cr"][t % len(case["cr"])]
+                ctx_resets += ca
+                reset = rl.at_edge(en, dis, bool(ca))
+                sim.clock("clk", en=en, dis=dis, d0=case["d0"], d1=case["d1"], rst=(1 - ca) if low else ca)
                 s_, r_, f_ = sim.get("o_state"), sim.get("o_rise"), sim.get("o_fall")
                 cr, cf = sim.get("o_cbr"), sim.get("o_cbf")
                 bad = []
@@ -692,7 +730,9 @@ def _check_gen(case, out):
     out.labels.append(f"{fam}:period={_n_class(per)}")
     if edge_inside:
         out.labels.append(f"{fam}:edge_inside_period")
-    out.nontrivial = (per >= 2 or "rt" in base["period_kind"]) and (drive == "none" or edge_inside)
+    if ctx_reset:
+        out.labels.append(f"{fam}:ctx_reset={ctx_reset}")
+    out.nontrivial = (per >= 2 or "rt" in base["period_kind"]) and (drive == "none" or edge_inside or ctx_resets > 0)
 
 
 def _toggle_stretch(out, base, cfg, case, first, second, obs, seq, t_end):
@@ -778,7 +818,7 @@ def _check_vary(case, out):
     if fam == "counter":
         init = {"clk": 0, "rst": 0, "lim": 0}
     else:
-        init = {"clk": 0, "en": 0, "dis": 1 if cfg.get("require_enable") else 0, "d0": 1, "d1": 1}
+        init = {"clk": 0, "en": 0, "dis": 1 if cfg.get("require_enable") else 0, "d0": 1, "d1": 1, "rst": 0}
     key, b = _build(fam, cfg, init)
     if _status_early(out, b, fam):
         return
